@@ -102,7 +102,7 @@ MUTANTS = {
         ('open-inode-any-type', 'src/passthrough/sync_io.rs', "        if !is_safe_inode(data.mode) {\n            Err(ebadf())", "        if false {\n            Err(ebadf())"),
         ('restricted-open-follows-links', P, "        let flags = libc::O_NOFOLLOW | libc::O_CLOEXEC | flags;", "        let flags = libc::O_CLOEXEC | flags;"),
         ('safe-inode-includes-symlinks', 'src/passthrough/util.rs', "    matches!(mode & libc::S_IFMT, libc::S_IFREG | libc::S_IFDIR)", "    matches!(mode & libc::S_IFMT, libc::S_IFREG | libc::S_IFDIR | libc::S_IFLNK)"),
-        ('create-without-excl', P, "        match openat(dir, pathname, flags | libc::O_CREAT | libc::O_EXCL, mode) {", "        match openat(dir, pathname, flags | libc::O_CREAT, mode) {"),
+        # 'create-without-excl' moved to C05: since the D28 repair (O_NOFOLLOW always) dropping O_EXCL no longer lets the creating open follow a link (C06 holds), it changes the host call
         ('pt-lookup-no-slash-check', 'src/passthrough/sync_io.rs', "        if name.to_bytes_with_nul().contains(&SLASH_ASCII) {\n            return Err(einval());\n        }\n        self.do_lookup(parent, name)", "        self.do_lookup(parent, name)"),
     ],
     'C17': [
@@ -124,7 +124,7 @@ MUTANTS = {
         ('async-error-sign', 'src/api/server/async_io.rs', "            error: -err\n                .raw_os_error()", "            error: err\n                .raw_os_error()"),
         ('async-read-len-without-header', 'src/api/server/async_io.rs', "len: (size_of::<OutHeader>() + count) as u32,", "len: count as u32,"),
         ('async-write-owner-wrong-flags-word', 'src/api/server/async_io.rs', "let owner = if fuse_flags & WRITE_LOCKOWNER != 0 {", "let owner = if flags & WRITE_LOCKOWNER != 0 {"),
-        ('async-no-id-remap', 'src/api/server/async_io.rs', "        self.remap_ctx_ids(&mut ctx)?;\n", "\n"),
+        ('async-no-id-remap', 'src/api/server/async_io.rs', "        if let Err(e) = self.remap_ctx_ids(&mut ctx) {\n            if ctx.in_header.opcode", "        if let Err(e) = Ok::<(), Error>(()) {\n            if ctx.in_header.opcode"),
         ('async-enosys-as-einval', 'src/api/server/async_io.rs', "ctx.async_reply_error(io::Error::from_raw_os_error(libc::ENOSYS))", "ctx.async_reply_error(io::Error::from_raw_os_error(libc::EINVAL))"),
         ('async-arc-fsyncdir-to-fsync', 'src/api/filesystem/async_io.rs', "        self.deref().async_fsyncdir(ctx, inode, datasync, handle)", "        self.deref().async_fsync(ctx, inode, datasync, handle)"),
         ('async-arc-getattr-drops-handle', 'src/api/filesystem/async_io.rs', "        self.deref().async_getattr(ctx, inode, handle)", "        self.deref().async_getattr(ctx, inode, None)"),
@@ -380,7 +380,7 @@ from vx import ovl_read_mutants_proposed as _OR
 for _k, _v in _OR.MUTANTS.items():
     MUTANTS.setdefault(_k, []).extend(_v)
 MUTANTS.setdefault('C10', []).extend([
-    ('ovl-stat64-ignores-every-errno', 'src/overlayfs/mod.rs', "if raw_error == libc::ENOENT || raw_error == libc::ENAMETOOLONG {", "if raw_error != libc::ENOENT || raw_error != libc::ENAMETOOLONG {"),
+    ('ovl-stat64-ignores-every-errno', 'src/overlayfs/mod.rs', "            Ok(v1) => Ok(Some(v1)),\n            Err(e) => match e.raw_os_error() {\n                Some(raw_error) => {\n                    if raw_error == libc::ENOENT || raw_error == libc::ENAMETOOLONG {", "            Ok(v1) => Ok(Some(v1)),\n            Err(e) => match e.raw_os_error() {\n                Some(raw_error) => {\n                    if raw_error != libc::ENOENT || raw_error != libc::ENAMETOOLONG {"),
 ])
 
 # the D28 repair: the creating open must not be able to follow a link
@@ -392,3 +392,8 @@ MUTANTS.setdefault('C06', []).extend([
 from vx import ptcore_mutants_proposed as _PC
 for _k, _v in _PC.MUTANTS.items():
     MUTANTS.setdefault(_k, []).extend(_v)
+
+MUTANTS.setdefault('C05', []).extend([
+    ('create-without-excl', 'src/passthrough/mod.rs', "let flags_excl = flags | libc::O_CREAT | libc::O_EXCL | libc::O_NOFOLLOW;", "let flags_excl = flags | libc::O_CREAT | libc::O_NOFOLLOW;"),
+    ('create-records-adjusted-flags', 'src/passthrough/sync_io.rs', "let data = HandleData::new(entry.inode, file, args.flags);", "let data = HandleData::new(entry.inode, file, self.get_writeback_open_flags(args.flags as i32) as u32);"),
+])
